@@ -30,7 +30,11 @@ for m in sorted(glob.glob(os.path.join(root, "*", "meta.json"))):
         shutil.rmtree(d, ignore_errors=True)
         continue
     res = {}
-    for c in j.get("checks", {j["property"]: None}).keys():
+    names = list(j.get("checks", {j["property"]: None}).keys())
+    for extra in list(j.get("recheck", {}).get("checks", {}).keys()) + j.get("also_check", []):
+        if extra not in names:
+            names.append(extra)
+    for c in names:
         t0 = time.time()
         q = subprocess.run(f"VERIF_REPO={d} ./check.sh {c} quick", shell=True, cwd="/verif", env=ENV, capture_output=True, text=True)
         out = q.stdout
